@@ -15,6 +15,7 @@ and, as the ENVIRONMENT the transport sits on (modelled, tied by the same differ
 Header names and values are byte strings (`List UInt8`): HPACK delivers arbitrary bytes.
 -/
 import GrpcModel.Generated.ServerAdmission
+import GrpcModel.Generated.Errors
 import GrpcModel.Model.Timeout
 namespace GrpcModel.ServerAdmission
 open GrpcModel.Generated
